@@ -469,25 +469,25 @@ func (sub *subquery) write(ctx *exprContext, sb *strings.Builder) error {
 		// First, write the source data
 		sb.WriteString("SELECT *,\n")
 		// Then add our render-specific metadata columns
-		sb.WriteString("    '")
-		sb.WriteString(op.ChartType.Name)
-		sb.WriteString("' as \"render_type\"")
+		sb.WriteString("    ")
+		quoteSQLString(sb, op.ChartType.Name)
+		sb.WriteString(" as \"render_type\"")
 
 		// Add render properties with standardized prefixes
 		for _, prop := range op.Props {
 			sb.WriteString(",\n    ")
 			// Quote all values as strings since they're instructions for the renderer
-			sb.WriteString("'")
+			value := ""
 			if lit, ok := prop.Value.(*parser.BasicLit); ok {
 				// Use the literal value directly
-				sb.WriteString(lit.Value)
+				value = lit.Value
 			} else if id, ok := prop.Value.(*parser.QualifiedIdent); ok {
 				// Use the identifier name
-				sb.WriteString(id.Parts[0].Name)
+				value = id.Parts[0].Name
 			}
-			sb.WriteString("' as \"render_prop_")
-			sb.WriteString(prop.Name.Name)
-			sb.WriteString("\"")
+			quoteSQLString(sb, value)
+			sb.WriteString(" as ")
+			quoteIdentifier(sb, "render_prop_"+prop.Name.Name)
 		}
 
 		sb.WriteString("\nFROM ")
